@@ -60,12 +60,15 @@ DistReason(e) ==
      ELSE IF e.d < 0 \/ e.d > One THEN "distance-out-of-range"
      ELSE IF KA = KB /\ e.d # 0 THEN "distance-nonzero-on-identical-content"
      ELSE IF e.n <= TableMax /\ ~Near(e.d, DistFP(PJaccardNum(KA, KB, e.n), e.n, e.k)) THEN "distance-formula"
+     ELSE IF e.n > TableMax /\ ~InBracket(e.d, PJaccardNum(KA, KB, e.n), e.n, e.k) THEN "distance-outside-table-bracket"
      ELSE "ok"
 
 JacReason(e, PJ, PD) ==
   IF e.d < 0 \/ e.d > One THEN "fromjaccard-out-of-range"
   ELSE IF e.jn = 0 /\ e.d # One THEN "fromjaccard-at-zero"
   ELSE IF e.jd <= TableMax /\ ~Near(e.d, DistFP(e.jn, e.jd, e.k)) THEN "fromjaccard-formula"
+  ELSE IF e.jd > TableMax /\ e.jn = 1 /\ IsPow2(e.jd) /\ ~Near(e.d, DistFPP(Log2(e.jd), e.k)) THEN "fromjaccard-formula"
+  ELSE IF e.jd > TableMax /\ ~InBracket(e.d, e.jn, e.jd, e.k) THEN "fromjaccard-outside-table-bracket"
   ELSE IF PJ[3] = e.k /\ PJ[1] * e.jd <= e.jn * PJ[2] /\ PD < e.d THEN "fromjaccard-not-monotone"
   ELSE IF PJ[3] = e.k /\ PJ[1] * e.jd >= e.jn * PJ[2] /\ PD > e.d THEN "fromjaccard-not-monotone"
   ELSE "ok"
